@@ -277,6 +277,54 @@ func c06(c *Ctx) {
 						}
 					}
 				}
+				if !mk {
+					// the other way to say it: every packet is built with the marker clear and, after the loop, the marker
+					// of packets[len(packets)-1] is set
+					if v, isC := core.ConstBool(valOr(f[".Header.Marker"])); (isC && !v) || f[".Header.Marker"] == nil {
+						for _, b := range fn.Blocks {
+							if inAnyLoop(b) {
+								continue
+							}
+							for _, in := range b.Instrs {
+								st, ok := in.(*ssa.Store)
+								if !ok {
+									continue
+								}
+								if tv, isT := core.ConstBool(st.Val); !isT || !tv {
+									continue
+								}
+								fa, ok := st.Addr.(*ssa.FieldAddr)
+								if !ok || core.FieldName(fa) != "Marker" {
+									continue
+								}
+								// ...Header.Marker of the element at index len(x)-1
+								root := fa.X
+								for i := 0; i < 4; i++ {
+									switch y := root.(type) {
+									case *ssa.FieldAddr:
+										root = y.X
+										continue
+									case *ssa.UnOp:
+										if y.Op == token.MUL {
+											root = y.X
+											continue
+										}
+									}
+									break
+								}
+								if ia, ok := root.(*ssa.IndexAddr); ok {
+									if sub, ok := ia.Index.(*ssa.BinOp); ok && sub.Op == token.SUB {
+										if k, isC := core.ConstInt(sub.Y); isC && k == 1 {
+											if ln, ok := sub.X.(*ssa.Call); ok && core.BuiltinName(ln) == "len" && ln.Call.Args[0] == ia.X {
+												mk = true
+											}
+										}
+									}
+								}
+							}
+						}
+					}
+				}
 				add("STRUCT.lit", fname, "Marker = (i == len(payloads)-1)", pos, mk, "marker expression: "+core.OpString(valOr(f[".Header.Marker"])))
 				// payload: the range element of the payloader result
 				plOK := false
